@@ -102,10 +102,17 @@ def case(draw, tier="quick"):
             trd.append([max(0, min(nt - 1, tick + draw(st.integers(-4, 4)))), gen.size_c(draw, 2, 20000) / 100])
         rc["trd"] = trd
         steps.append({"dt": draw(st.sampled_from([50, 200, 1000])), "k": "book", "rc": [rc]})
+    ops = [op]
+    if ri == 0 and draw(st.integers(0, 4)) == 0:
+        # the order shares its place package with a plain order on the other runner, which is declared a non-runner
+        # (and the pending order on it voided) 50 ms later, inside the place latency: the package then holds an
+        # order that completed in flight - every other instruction must still be executed for ITS order
+        ops = [{"op": "txn", "ops": [{"op": "place", "r": 1, "side": "BACK", "type": "LIMIT", "tick": mid, "size": 2.0, "pers": "LAPSE"}, op]}]
+        steps.insert(1, {"dt": 50, "k": "remove", "r": 1, "af": 10.0})
     spec["steps"] = steps
     return {
         "markets": [spec],
-        "strategies": [gen.strategy_spec("A", script=[{"m": 0, "at": 1, "ops": [op]}])],
+        "strategies": [gen.strategy_spec("A", script=[{"m": 0, "at": 1, "ops": ops}])],
         "clients": [{"bpe": draw(st.integers(0, 2)) > 0, "full_match": draw(st.integers(0, 7)) == 0,
                      "min_bet_validation": False}],
         "config": {},
@@ -119,6 +126,9 @@ def check(sc):
     spec = sc["markets"][0]
     prices = world.ladder_prices(spec)
     op = sc["strategies"][0]["script"][0]["ops"][0]
+    shared_package = op["op"] == "txn"
+    if shared_package:
+        op = op["ops"][1]
     side, limit, size = op["side"], prices[op["tick"]], op["size"]
     fok = op.get("tif") == "FILL_OR_KILL"
     min_fill = op.get("min_fill") or size
@@ -126,11 +136,15 @@ def check(sc):
     full = sc["clients"][0]["full_match"]
     r = lb.renderers[0]
     ri = op.get("r", 0)
-    snap = r.updates[1].books[ri]  # book prevailing before the executing update (update index 2)
+    target = (spec["runners"][ri]["id"], spec["runners"][ri].get("hc", 0))
+    # book prevailing before the executing update (update index 2; 3 when the non-runner update precedes it)
+    snap = r.updates[2 if shared_package else 1].books[ri]
     book = snap["atb"] if side == "BACK" else snap["atl"]  # [(price, size)] best first
     level = {p: s for p, s in book}
     best = book[0][0] if book else None
     classes = {"side:" + side, "fok" if fok else "plain", "bpe-on" if bpe else "bpe-off"}
+    if shared_package:
+        classes.add("package-shared-with-order-completed-in-flight")
     if ri:
         classes.add("handicap-line-0.0-listed-second")
     if full:
@@ -157,6 +171,8 @@ def check(sc):
     final = None
     for rec in lb.log:
         for o in rec.get("orders", ()):
+            if (o["sel"], o["hc"]) != target:
+                continue  # the other order of a shared package
             order_seen = True
             final = o
             where = "%s@%s" % (rec["cb"], rec["idx"])
